@@ -42,6 +42,7 @@ class Gate:
     rule: str = "RG"
     forbid: tuple[str, ...] = ()
     exact: bool = False
+    nonnull: str | None = None
 
 
 @dataclass
@@ -109,11 +110,20 @@ def run_gates(prog: Program, report: Report, table: list, pid: str) -> None:
             continue
         if g.rule not in report.rules:
             report.rules.append(g.rule)
+        try:
+            n += _run_one(prog, report, g)
+        except AnalysisError as e:
+            report.errors.append(str(e))
+    report.count("RG gate/pass/form obligations", n)
+
+
+def _run_one(prog: Program, report: Report, g) -> int:
+    n = 0
+    if True:
         v = view(prog, g.fn)
         if isinstance(g, Must):
-            n += 1
             _must(report, v, g)
-            continue
+            return 1
         targets = find_targets(v, g.kind, g.target)
         if len(targets) < g.min:
             raise AnalysisError(f"{g.rule}: {g.fn}: target /{g.target}/ found {len(targets)} time(s), expected at least {g.min} (table needs maintenance)")
@@ -122,7 +132,7 @@ def run_gates(prog: Program, report: Report, table: list, pid: str) -> None:
                 raise AnalysisError(f"{g.rule}: {g.fn}: target /{g.target}/ found {len(targets)} times, expected at most {g.max}")
             for t in targets:
                 n += 1
-                ok = require(report, g.rule, v, t, g.needs, g.why.split(";")[0], g.why)
+                ok = require(report, g.rule, v, t, g.needs, g.why.split(";")[0], g.why, nonnull=g.nonnull)
                 if ok and (g.forbid or g.exact):
                     dom = v.guards(t, resolve=False)
                     bad = [f for f in g.forbid if holds(dom, f)]
@@ -169,7 +179,7 @@ def run_gates(prog: Program, report: Report, table: list, pid: str) -> None:
                     report.ob(g.rule, g.fn, f"every path to [{one_line(t)[:80]}] passes /{g.through}/")
                 else:
                     report.violate(g.rule, v.fn, t, f"{g.why.split(';')[0]}: {one_line(t)[:100]}", f"{g.why}; a path from the function entry reaches this statement without passing `{g.through}`", what=f"every path to the target passes /{g.through}/")
-    report.count("RG gate/pass/form obligations", n)
+    return n
 
 
 def _must(report: Report, v: FnView, g: Must) -> None:
